@@ -19,8 +19,8 @@ EXTENDS ConvOps
 hHTML == 70  hHEAD == 71  hMETA == 72  hBODY == 73  hDIV == 74  hSPAN == 75  hA == 76  hBR == 77  hIMG == 78  hTITLE == 79
 bSTYLE == 80  bNAME == 81  bHREF == 82  bSRC == 83  bBORDER == 84  bWIDTH == 85  bHEIGHT == 86  bHTTPEQUIV == 87  bCONTENT == 88
 bCLASS == 89  bID == 90  bTITLE == 91  bXMLNS == 92  bXMLLANG == 93  bLANG == 94  bCHARSET == 95
-IsMLElem(c) == c \in 70..79
-IsMLAttr(c) == c \in 80..95
+IsMLElem(c) == c \in 70..79 \/ c = ePAGE             \* <page> is the root of TagExtractor's output
+IsMLAttr(c) == c \in 80..95 \/ c \in {aID, aBBOX, aROTATE}
 Voids == {hMETA, hBR, hIMG}
 \* fixed fragments
 gCONTENTTYPE == 300   \* Content-Type
